@@ -226,6 +226,7 @@ def run(rep, tier):
     for cfg, prog in programs(cfgs):
         rep.set_cfg(cfg)
         rep.call(alpha_rules.alpha_set, rep, prog, "C06.alpha-set")
+        rep.call(alpha_rules.zero_guard, rep, prog, "C06.zero-guard")
         rep.call(saturate, rep, prog, "C06.saturate")
         rep.call(simd_rules.lane_bypass, rep, prog, "C06.lane-bypass")
         rep.call(rounding.round_div, rep, prog, "C06.round-div")
